@@ -43,7 +43,7 @@ def gen_random(R, count, nmax):
     for t in range(count):
         n = R.rng.randint(1, nmax)
         P1, P2 = S.rand_ranks(R.rng, n), S.rand_ranks(R.rng, n)
-        kind = R.rng.choice(["agree_ties", "agree_strict", "free", "tie_heavy", "omit"])
+        kind = R.rng.choice(["agree_ties", "agree_strict", "free", "tie_heavy", "omit", "omit", "omit_huge"])
         if kind == "agree_ties":
             V1, V2 = S.vals_agreeing(R.rng, P1), S.vals_agreeing(R.rng, P2)
         elif kind == "agree_strict":
@@ -52,11 +52,17 @@ def gen_random(R, count, nmax):
             V1, V2 = S.vals_free(R.rng, n), S.vals_free(R.rng, n)
         elif kind == "tie_heavy":
             V1, V2 = S.vals_agreeing(R.rng, P1, 0, 3), S.vals_agreeing(R.rng, P2, 0, 3)
+        elif kind == "omit_huge":
+            # distinct int64 valuations beyond 2^53: neighbours differ by 1, which float64 cannot tell apart
+            base = 2 ** R.rng.choice([53, 54, 55])
+            V1 = [[base + x for x in R.rng.sample(range(0, 3 * n), n)] for _ in range(n)]
+            V2 = [[base + x for x in R.rng.sample(range(0, 3 * n), n)] for _ in range(n)]
+            P1, P2 = S.induced_ranks(V1), S.induced_ranks(V2)
         else:
             V1 = [R.rng.sample(range(-20, 40), n) for _ in range(n)]
             V2 = [R.rng.sample(range(-20, 40), n) for _ in range(n)]
             P1, P2 = S.induced_ranks(V1), S.induced_ranks(V2)
-        items.append({"P1": P1, "P2": P2, "V1": V1, "V2": V2, "zero": R.rng.random() < 0.5, "omit": kind == "omit", "tag": kind,
+        items.append({"P1": P1, "P2": P2, "V1": V1, "V2": V2, "zero": R.rng.random() < 0.5, "omit": kind in ("omit", "omit_huge"), "tag": kind,
                       "float_ranks": R.rng.random() < 0.3})
     return items
 
